@@ -233,3 +233,50 @@ Proof.
     f_equal. replace (off + W - off)%nat with W by lia. reflexivity.
   - rewrite !app_length, firstn_length, Hw, skipn_length. lia.
 Qed.
+
+Lemma firstn_le_eq {A} (a b : list A) k off :
+  (k <= off)%nat -> firstn off a = firstn off b -> firstn k a = firstn k b.
+Proof.
+  intros Hk H. rewrite <- (Nat.min_l k off Hk). rewrite <- !firstn_firstn. rewrite H. reflexivity.
+Qed.
+
+Lemma copy_middle_inv W src fuel : forall off dst,
+  (0 < W)%nat -> length dst = length src -> (off <= length src)%nat ->
+  firstn off dst = firstn off src -> (length src - off <= fuel)%nat ->
+  let d := copy_middle W fuel off src dst in
+  length d = length src /\
+  exists off', (length src - W <= off')%nat /\ (off' <= length src)%nat /\ firstn off' d = firstn off' src.
+Proof.
+  induction fuel as [|f IH]; intros off dst HW Hl Ho Hp Hf; cbn [copy_middle].
+  - split; [exact Hl|]. exists off. repeat split; [lia|exact Ho|exact Hp].
+  - destruct (off <? length src - W)%nat eqn:E.
+    + apply Nat.ltb_lt in E.
+      destruct (write_at_prefix src dst off W Hl ltac:(lia) Hp) as [Hp' Hl'].
+      apply IH; [exact HW|exact Hl'|lia|exact Hp'|lia].
+    + apply Nat.ltb_ge in E. split; [exact Hl|]. exists off. repeat split; [exact E|exact Ho|exact Hp].
+Qed.
+
+(* first window, middle windows, overlapping last window: the destination becomes the source *)
+Lemma copy_windows_correct W src dst :
+  (0 < W)%nat -> (W <= length src)%nat -> length dst = length src -> copy_windows W src dst = src.
+Proof.
+  intros HW Hlen Hl. unfold copy_windows.
+  destruct (write_at_prefix src dst 0 W Hl ltac:(lia) eq_refl) as [Hp1 Hl1].
+  cbn [plus] in Hp1.
+  set (d1 := write_at dst 0 (window src 0 W)) in *.
+  destruct (copy_middle_inv W src (length src) W d1 HW Hl1 Hlen Hp1 ltac:(lia)) as [Hl2 (off' & Ho1 & Ho2 & Hp2)].
+  set (d2 := copy_middle W (length src) W src d1) in *.
+  destruct (W <? length src)%nat eqn:E.
+  - apply Nat.ltb_lt in E.
+    assert (Hp3 : firstn (length src - W) d2 = firstn (length src - W) src)
+      by (apply (firstn_le_eq _ _ _ off'); assumption).
+    destruct (write_at_prefix src d2 (length src - W) W Hl2 ltac:(lia) Hp3) as [Hp4 Hl4].
+    replace (length src - W + W)%nat with (length src) in Hp4 by lia.
+    rewrite firstn_all2 in Hp4 by lia. rewrite firstn_all in Hp4. exact Hp4.
+  - apply Nat.ltb_ge in E. assert (W = length src) by lia. subst W.
+    assert (Hd1 : d1 = src).
+    { rewrite <- (firstn_all d1), Hl1, Hp1. apply firstn_all. }
+    subst d2. rewrite Hd1.
+    destruct (length src) as [|n] eqn:En; [lia|].
+    cbn [copy_middle]. rewrite En, Nat.sub_diag. reflexivity.
+Qed.
